@@ -32,18 +32,37 @@ theorem listKeys_spec (keys names : List Str) :
     listKeys keys names = names.flatMap fun n => keys.filter fun k => glob (prefixed (common keys) n) k :=
   listKeys_spec' keys names
 
-/-- The common path of two or more normalised keys is a string prefix of every key (so full keys are matched without the
-wildcard prefix). -/
-theorem common_isPrefix (keys : List Str) (h2 : 2 ≤ keys.length) (hnorm : ∀ k ∈ keys, Normalized k) (k : Str) (hk : k ∈ keys) :
-    (common keys).isPrefixOf k = true :=
+/-- The common path of two or more keys (with normalised directory parts) is a string prefix of every key (so full keys are
+matched without the wildcard prefix). -/
+theorem common_isPrefix (keys : List Str) (h2 : 2 ≤ keys.length) (hnorm : ∀ k ∈ keys, Normalized (pathDirname k)) (k : Str)
+    (hk : k ∈ keys) : (common keys).isPrefixOf k = true :=
   common_isPrefix' keys h2 hnorm k hk
 
-/-- Every registered key selects itself, and only itself, by its full key (keys without `*`/`?`, pairwise distinct; for a
-single key: its directory part must be a prefix of it, which holds for every key `dir/name`). -/
-theorem self_select_fullkey (keys : List Str) (hn : keys.Nodup) (hnorm : ∀ k ∈ keys, Normalized k) (k : Str) (hk : k ∈ keys)
-    (hw : ∀ c ∈ k, c ≠ '*' ∧ c ≠ '?') (h1 : keys = [k] → (pathDirname k).isPrefixOf k = true) :
+/-- The common path is a directory prefix of every key: unless it is empty or the root, the key continues with `/` after it. -/
+theorem common_dirPrefix (keys : List Str) (h2 : 2 ≤ keys.length) (hnorm : ∀ k ∈ keys, Normalized (pathDirname k))
+    (k : Str) (hk : k ∈ keys) (hc : common keys ≠ []) (hroot : common keys ≠ [sep]) :
+    ∃ rel, k = common keys ++ sep :: rel :=
+  common_dirPrefix' keys h2 hnorm k hk hc hroot
+
+/-- `getm(…, fullkey=False)` names a key `common/rel` by `rel` — whatever separators `rel` contains. -/
+theorem retKey_relative (keys : List Str) (k rel : Str) (hrel : k = common keys ++ sep :: rel) : retKey keys k = rel :=
+  retKey_relative' keys k rel hrel
+
+/-- Without a common path, keys that do not start with a separator (in-memory series) keep their names. -/
+theorem retKey_no_common (keys : List Str) (k : Str) (hc : common keys = []) (hk : isAbs k = false) : retKey keys k = k :=
+  retKey_no_common' keys k hc hk
+
+/-- Without a common path the relative listing is the listing itself. -/
+theorem listRelative_no_common (cwd : Str) (keys : List Str) (hc : common keys = []) :
+    listRelative cwd keys none = keys :=
+  listRelative_no_common' cwd keys hc
+
+/-- Every registered key selects itself, and only itself, by its full key (keys without `*`/`?`, pairwise distinct, directory
+parts normalised). -/
+theorem self_select_fullkey (keys : List Str) (hn : keys.Nodup) (hnorm : ∀ k ∈ keys, Normalized (pathDirname k)) (k : Str)
+    (hk : k ∈ keys) (hw : ∀ c ∈ k, c ≠ '*' ∧ c ≠ '?') :
     listKeys keys [k] = [k] ∧ getKey keys k = .ok k ∧ contains keys k = true :=
-  self_select_fullkey' keys hn hnorm k hk hw h1
+  self_select_fullkey' keys hn hnorm k hk hw
 
 /-- Single retrieval and containment agree with the listing. -/
 theorem get_agrees (keys : List Str) (name : Str) :
@@ -77,6 +96,23 @@ theorem single_series_bracket :
     let k := "/d/g.ts/Tension [kN/m]".toList
     common [k] = "/d/g.ts".toList ∧ listRelative "/w".toList [k] none = ["Tension [kN/m]".toList] ∧
       listKeys [k] ["Tension [kN/m]".toList] = [k] ∧ listKeys [k] [k] = [k] := by
+  decide +kernel
+
+/-- Regression (F33–F35): two series of one file whose unit brackets contain `/`. The common path is the file (not
+`…/A [kN`), the relative names are the series names, and a relative name selects its key and is returned by `getm`. -/
+theorem bracket_stem_roundtrip :
+    let keys := ["/d/f.ts/A [kN/m]".toList, "/d/f.ts/A [kN/s]".toList]
+    common keys = "/d/f.ts".toList ∧ listRelative "/w".toList keys none = ["A [kN/m]".toList, "A [kN/s]".toList] ∧
+      listKeys keys ["A [kN/m]".toList] = ["/d/f.ts/A [kN/m]".toList] ∧ retKey keys "/d/f.ts/A [kN/m]".toList = "A [kN/m]".toList := by
+  decide +kernel
+
+/-- Regression (F33–F35), in-memory variant: the same two names registered without a file. There is no common path, the
+relative listing is the keys themselves, each name selects itself and `getm` keeps the names. -/
+theorem bracket_stem_roundtrip_in_memory :
+    let keys := ["A [kN/m]".toList, "A [kN/s]".toList]
+    common keys = [] ∧ listRelative "/w".toList keys none = keys ∧
+      listKeys keys ["A [kN/m]".toList] = ["A [kN/m]".toList] ∧ listKeys keys ["A [kN/s]".toList] = ["A [kN/s]".toList] ∧
+      retKey keys "A [kN/m]".toList = "A [kN/m]".toList ∧ retKey keys "A [kN/s]".toList = "A [kN/s]".toList := by
   decide +kernel
 
 end Qats.Props.C09
